@@ -168,6 +168,85 @@ def check_other_format(rep, spec, base):
         rep(carrier, "nrrd-npy-roundtrip", spec, f"dtype {b.dtype}, index {np.unravel_index(k, want_shape)}: {b.ravel()[k]!r}", f"dtype {out_dtype}, {x.ravel()[k]:.6f} +- {tol:.6f}", variant="values")
 
 
+def check_v3d(rep, spec, base):
+    """a v3draw / v3dpbd file written by v3dpy (array indexed [c, z, y, x], header sizes x, y, z, c), read through read_imgs:
+    every ImageStack documents arrays of shape (X, Y, Z, C)"""
+    from v3dpy.loaders import PBD, Raw
+
+    from swcgeom.images.io import read_imgs
+
+    X_, Y_, Z_, C_ = spec["shape"]
+    a = make_stack((X_, Y_, Z_, C_), spec["dtype"], spec["pattern"], spec["seed"])  # a[x, y, z, c]
+    fname = os.path.join(base, "stack." + spec["format"])
+    if os.path.exists(fname):
+        os.remove(fname)
+    (Raw if spec["format"] == "v3draw" else PBD)().save(fname, np.ascontiguousarray(a.transpose(3, 2, 1, 0)))
+    carrier = "V3dImageStack.__init__"
+    try:
+        st = read_imgs(fname, dtype=to_np_dtype(spec["dtype"], False))
+        b = np.asarray(st.get_full())
+    except Exception as e:
+        rep(carrier, "v3d-axes-(X,Y,Z,C)", spec, f"{type(e).__name__}: {e!r}", f"a stack of shape {(X_, Y_, Z_, C_)}", variant=type(e).__name__)
+        return
+    if tuple(b.shape) != (X_, Y_, Z_, C_) or tuple(st.shape) != (X_, Y_, Z_, C_):
+        rep(carrier, "v3d-axes-(X,Y,Z,C)", spec, f"shape {tuple(b.shape)}", f"shape {(X_, Y_, Z_, C_)} (header sizes x, y, z, c)", variant="shape")
+    elif not np.array_equal(b, a):
+        rep(carrier, "v3d-axes-(X,Y,Z,C)", spec, f"{int((b != a).sum())} voxels differ", "voxel [x, y, z, c] of the file at index [x, y, z, c]", variant="values")
+
+
+def check_gray(rep, spec, base):
+    """read_images(...) -> GrayImageStack: shape (X, Y, Z), get_full / [x, y, z] / slices = channel 0 of the stack read_imgs returns"""
+    import warnings as _w
+
+    from swcgeom.images.io import read_images, save_tiff
+
+    a = make_stack(tuple(spec["shape"]), spec["dtype"], spec["pattern"], spec["seed"])
+    fname = os.path.join(base, "gray.tif")
+    if os.path.exists(fname):
+        os.remove(fname)
+    save_tiff(a.copy(), fname)
+    with _w.catch_warnings():
+        _w.simplefilter("ignore")
+        g = read_images(fname, dtype=to_np_dtype(spec["dtype"], False))
+    want = a[..., 0]
+    if tuple(g.shape) != want.shape or not np.array_equal(np.asarray(g.get_full()), want):
+        rep("GrayImageStack.get_full", "gray-is-channel-0", spec, f"shape {tuple(g.shape)}, get_full {describe(np.asarray(g.get_full()))}", f"shape {want.shape}, {describe(want)}")
+    x, y, z = [n - 1 for n in want.shape]
+    for key, exp in (((x, y, z), want[x, y, z]), ((slice(0, 2), slice(None), slice(None)), want[0:2]), (slice(None), want[:])):
+        try:
+            got = g[key]
+            ok = np.array_equal(np.asarray(got), np.asarray(exp))
+            obs = describe(np.asarray(got))
+        except RecursionError as e:
+            ok, obs = False, f"RecursionError: {str(e)[:60]}"
+        except Exception as e:
+            ok, obs = False, f"{type(e).__name__}: {e!r}"
+        if not ok:
+            rep("GrayImageStack.__getitem__ (via read_images)", "gray-pixel-or-patch", dict(spec, key=repr(key)), obs, describe(np.asarray(exp)), variant=obs.split(":")[0])
+
+
+def check_raster_file(rep, spec, base):
+    """ToImageStack.save_tif: Z frames of shape (X, Y) written page by page; read_imgs gives (X, Y, Z, 1) with voxel [x, y, z, 0] = frame z [x, y]"""
+    from swcgeom.images.io import read_imgs
+    from swcgeom.transforms.image_stack import ToImageStack
+
+    Z_, X_, Y_ = spec["shape"]
+    frames = [make_stack((X_, Y_), "uint8", spec["pattern"], spec["seed"] + k) for k in range(Z_)]
+    fname = os.path.join(base, "raster.tif")
+    if os.path.exists(fname):
+        os.remove(fname)
+    try:
+        ToImageStack.save_tif(fname, iter(frames))
+        st = read_imgs(fname, dtype=np.uint8)
+        b = np.asarray(st.get_full())
+    except Exception as e:
+        rep("ToImageStack.save_tif", "raster-file-roundtrip", spec, f"{type(e).__name__}: {e!r}", f"a stack of shape {(X_, Y_, Z_, 1)}", variant=type(e).__name__)
+        return
+    want = np.stack(frames, axis=0).transpose(1, 2, 0)[..., None]
+    if b.shape != want.shape or not np.array_equal(b, want):
+        rep("ToImageStack.save_tif", "raster-file-roundtrip", spec, describe(b), describe(want))
+
+
 # ----------------------------------------------------------------------------- rasterisation
 def cone_g(p, a, b, ra, rb):
     """min over t in [0,1] of |p - (a + t (b - a))| - (ra + t (rb - ra)) for points p (N,3)."""
@@ -335,6 +414,29 @@ def run(ctx):
                         check_tiff(rep, spec, base)
                         ctx.case("tiff-conversion", dict(shape=list(shape), dtype=dtype, pattern=pattern, conv=dict(save_dtype=sv, read_dtype=sv)), nontrivial=int(np.prod(shape)) > 1)
 
+        # other readers behind read_imgs (v3dpy formats), the legacy gray wrapper, and the page-by-page raster file
+        for shape in [(4, 3, 2, 1), (2, 3, 5, 1), (1, 1, 1, 1), (3, 2, 2, 3), (5, 1, 2, 1)]:
+            for dtype in ("uint8", "uint16") + (() if quick else ("float32",)):
+                for fmt in ("v3draw", "v3dpbd"):
+                    if fmt == "v3dpbd" and dtype == "float32":
+                        continue  # PBD stores 8 / 16 bit data
+                    k += 1
+                    spec = dict(kind="v3d", format=fmt, shape=list(shape), dtype=dtype, pattern="ramp", seed=k)
+                    check_v3d(rep, spec, base)
+                    ctx.case("v3d", dict(format=fmt, shape=list(shape), dtype=dtype), nontrivial=int(np.prod(shape)) > 1)
+            for dtype in ("uint8", "float32"):
+                if shape[3] == 1:
+                    k += 1
+                    spec = dict(kind="gray", shape=list(shape), dtype=dtype, pattern="ramp", seed=k)
+                    check_gray(rep, spec, base)
+                    ctx.case("gray", dict(shape=list(shape), dtype=dtype), nontrivial=int(np.prod(shape)) > 1)
+        for shape in [(1, 1, 1), (3, 2, 5), (2, 5, 1), (4, 1, 3), (1, 4, 2)]:
+            for pattern in ("ramp", "one-hot"):
+                k += 1
+                spec = dict(kind="raster-file", shape=list(shape), pattern=pattern, seed=k)
+                check_raster_file(rep, spec, base)
+                ctx.case("raster-file", dict(shape=list(shape), pattern=pattern), nontrivial=int(np.prod(shape)) > 1)
+
         # rasterisation
         try:
             import sdflit  # noqa: F401
@@ -373,7 +475,8 @@ def run(ctx):
             ctx.notes.append(f"rasterisation: {tot} voxel centres decided (|distance| >= 1e-3), {ins} of them inside")
         ctx.rule("TIFF round trips through real files: every shape (X,Y,Z,C) with X,Y,Z in {1,2,3,5}, C in {1,3} plus four 3-D shapes x dtype (uint8, uint16, float32) x pattern (ramp, random, "
                  "one-hot): same dtype exact, and the documented conversions (uint->float on read/save, float->uint on save/read with dtype given as class and as np.dtype, uint8->uint16); "
-                 "NRRD/NPY written by pynrrd/numpy and read back through read_imgs; ToImageStack on every tree <= 4 nodes x coordinates (lattice walk, jittered, lattice with coincident "
+                 "NRRD/NPY written by pynrrd/numpy and read back through read_imgs; v3draw/v3dpbd written by v3dpy and read back as (X,Y,Z,C); read_images gray wrapper "
+                 "(shape, get_full, pixel and patch keys); frames saved page by page by ToImageStack.save_tif read back as (X,Y,Z,1); ToImageStack on every tree <= 4 nodes x coordinates (lattice walk, jittered, lattice with coincident "
                  "points) x radii (uniform, varied, big root enclosing its children, big tip enclosing its parent) x resolutions x (default box, explicit shifted box) plus random trees, every voxel centre compared with the round-cone "
                  "oracle. Non-trivial = stack with > 1 voxel / tree with >= 1 edge.", exhaustive=False)
     finally:
@@ -401,6 +504,12 @@ def replay(spec):
             check_other_format(rep, spec, base)
         elif spec["kind"] == "raster":
             check_raster(rep, spec)
+        elif spec["kind"] == "v3d":
+            check_v3d(rep, spec, base)
+        elif spec["kind"] == "gray":
+            check_gray(rep, spec, base)
+        elif spec["kind"] == "raster-file":
+            check_raster_file(rep, spec, base)
     finally:
         shutil.rmtree(base, ignore_errors=True)
     for v in c.v:
